@@ -18,11 +18,26 @@ pub struct ClockSpec {
     pub tail_key: u64,
     /// Skew added (wrapping) to every reading seen by the n-th fork (clone) of the clock.
     pub fork_skews: Vec<u64>,
+    /// (at, len): from reading index `at` on the clock stands still for `len` readings and then goes on
+    /// where it was (a frozen counter that resumes) - hundreds of thousands of readings without
+    /// spelling them out
+    #[serde(default)]
+    pub freeze: Option<(u64, u64)>,
 }
 
 impl ClockSpec {
     #[inline]
     pub fn reading(&self, i: u64) -> u64 {
+        let i = match self.freeze {
+            Some((at, len)) if i >= at => {
+                if i < at.saturating_add(len) {
+                    at
+                } else {
+                    i - len
+                }
+            }
+            _ => i,
+        };
         if (i as usize) < self.readings.len() {
             self.readings[i as usize]
         } else {
@@ -31,6 +46,10 @@ impl ClockSpec {
             base.wrapping_add(k.wrapping_mul(900))
                 .wrapping_add(h2(self.tail_key, i) % 613)
         }
+    }
+    /// readings an operation may legitimately spend inside the frozen stretch
+    pub fn freeze_len(&self) -> u64 {
+        self.freeze.map(|f| f.1).unwrap_or(0)
     }
     pub fn skew(&self, fork_no: usize) -> u64 {
         self.fork_skews.get(fork_no).copied().unwrap_or(0)
@@ -67,7 +86,8 @@ impl ClockCore {
         self.pos.load(Ordering::Relaxed)
     }
     pub fn set_cap(&self, cap: u64) {
-        self.cap.store(cap, Ordering::Relaxed)
+        // a script with a frozen stretch needs that many more readings before it counts as stuck
+        self.cap.store(cap.saturating_add(self.spec.freeze_len()), Ordering::Relaxed)
     }
 }
 
